@@ -293,3 +293,41 @@ Goal forall (uc : unicode) (cfg : sw_config),
     c15_contained C15sw LCode (mark (c15_file_pieces C15sw parts)) = true.
 Proof. exact Props.C15.C15_sw_item_line_free. Qed.
 Print Assumptions Props.C15.C15_sw_item_line_free.
+Goal forall (uc : unicode) (cfg : sw_config),
+  c15_sw_raw (sw_prefix cfg) = true ->
+  c15_mappings_plain C15sw (sw_type_mappings cfg) = true ->
+  forallb (c15_plain C15sw) (sw_default_decorators cfg) = true ->
+  forallb (c15_plain C15sw) (sw_default_generic_constraints cfg) = true ->
+  forallb (c15_plain C15sw) (sw_codablevoid_constraints cfg) = true ->
+  c15_sw_version_ok (sw_version cfg) = true ->
+  forall pd text,
+  forallb c15_sw_item_ok (items_of pd) = true ->
+  sw_generate uc cfg pd = Ok text ->
+  exists items trailer parts,
+    topsort (items_of pd) = Ok items /\ Permutation items (items_of pd) /\
+    (trailer = [] \/ trailer = c15_sw_trailer_docs) /\
+    text = text_of (c15_file_pieces C15sw parts) /\
+    docs_of (c15_file_pieces C15sw parts) = flat_map (c15_sw_item_docs uc) items ++ trailer /\
+    c15_contained C15sw LCode (mark (c15_file_pieces C15sw parts)) =
+    forallb safe_sw (flat_map (c15_sw_item_docs uc) items).
+Proof. exact Props.C15.C15_sw_file. Qed.
+Print Assumptions Props.C15.C15_sw_file.
+Goal forall (uc : unicode) (cfg : sw_config),
+  c15_sw_raw (sw_prefix cfg) = true ->
+  c15_mappings_plain C15sw (sw_type_mappings cfg) = true ->
+  forallb (c15_plain C15sw) (sw_default_decorators cfg) = true ->
+  forallb (c15_plain C15sw) (sw_default_generic_constraints cfg) = true ->
+  forallb (c15_plain C15sw) (sw_codablevoid_constraints cfg) = true ->
+  c15_sw_version_ok (sw_version cfg) = true ->
+  forall pd text,
+  forallb c15_sw_item_ok (items_of pd) = true ->
+  Forall (fun it => Forall (fun d => safe_line eol_lf_cr d = true) (c15_item_docs it)) (items_of pd) ->
+  sw_generate uc cfg pd = Ok text ->
+  exists items trailer parts,
+    topsort (items_of pd) = Ok items /\ Permutation items (items_of pd) /\
+    (trailer = [] \/ trailer = c15_sw_trailer_docs) /\
+    text = text_of (c15_file_pieces C15sw parts) /\
+    docs_of (c15_file_pieces C15sw parts) = flat_map (c15_sw_item_docs uc) items ++ trailer /\
+    c15_contained C15sw LCode (mark (c15_file_pieces C15sw parts)) = true.
+Proof. exact Props.C15.C15_sw_file_line_free. Qed.
+Print Assumptions Props.C15.C15_sw_file_line_free.
